@@ -157,7 +157,7 @@ func (b *batch) Commit(ctx context.Context) error {
 			b.store.skl.Remove(keyBytes)
 		} else {
 			if v.ttl != 0 {
-				b.asyncRemove(keyBytes, v.ttl)
+				b.asyncRemove(keyBytes, v.val, v.ttl)
 			}
 			b.store.skl.Set(keyBytes, v.val)
 		}
@@ -167,14 +167,27 @@ func (b *batch) Commit(ctx context.Context) error {
 	return nil
 }
 
-func (b *batch) asyncRemove(key []byte, seconds int64) {
+func (b *batch) asyncRemove(key []byte, val []byte, seconds int64) {
 	if seconds == 0 {
 		return
 	}
 
 	go func(kvStorage storage.KvStorage) {
 		time.AfterFunc(time.Duration(seconds)*time.Second, func() {
-			_ = b.store.del(key)
+			// the ttl belongs to the value it was written with: a key that has been overwritten since
+			// (without ttl, or with a new one) must not be removed by the timer of the older write
+			_ = b.store.delIfUnchanged(key, val)
 		})
 	}(b.store)
+}
+
+func (s *store) delIfUnchanged(key []byte, val []byte) error {
+	s.mu.Lock()
+	defer s.mu.Unlock()
+	cur, err := s.get(key)
+	if err != nil || !bytes.Equal(cur, val) {
+		return nil
+	}
+	s.skl.Remove(key)
+	return nil
 }
